@@ -730,4 +730,66 @@ example :
     moduleRegsTree (tree true) = [(5, 30), (1, 10), (2, 20)] ∧
     moduleRegsTree (tree false) = [(5, 30), (2, 20)] := by decide
 
+/-! ### which class a class argument means
+
+`find_lua_classes` / `class_arg_pop` (model: `luaClassesFrom`, `classArgPop`): the dict of wrapped classes is
+keyed by the fully qualified name, which C++ scoping makes distinct. -/
+
+/-- **a class argument is read as an object of its own class**: for every list of wrapped classes with
+    distinct qualified names (any number, any nesting, equal unqualified names allowed) an argument declared
+    with the `i`-th class's name is resolved to the `i`-th class: its userdata struct, its metatable name -/
+theorem class_arg_own_class (classes : List QName) (i : Nat) (q : QName) (hn : classes.Nodup)
+    (h : classes[i]? = some q) : classArgPop classes q = .own i := by
+  have := dictGet_luaClassesFrom_nodup id classes 0 i q (by simpa using hn) h
+  simp_all [classArgPop, classArgPopBy]
+
+/-- a type that is no wrapped class of this library takes the "wrapped by another library" path -/
+theorem class_arg_unknown_is_foreign (classes : List QName) (q : QName) (h : q ∉ classes) :
+    classArgPop classes q = .foreign (q.getLast?.getD 0) := by
+  have := dictGet_luaClassesFrom_none id classes 0 q (fun q' hq' he => h (by simpa [← he] using hq'))
+  simp_all [classArgPop, classArgPopBy]
+
+/-- soundness for ANY keying: the class found has the same key as the argument's type -/
+theorem class_arg_found_has_key (keyOf : QName → QName) (classes : List QName) (ty : QName) (k : Nat)
+    (h : classArgPopBy keyOf classes ty = .own k) : ∃ q, classes[k]? = some q ∧ keyOf q = keyOf ty := by
+  unfold classArgPopBy at h
+  cases hr : dictGet (luaClassesFrom keyOf 0 classes) (keyOf ty) with
+  | none => rw [hr] at h; simp at h
+  | some w =>
+    rw [hr] at h
+    simp at h; subst h
+    obtain ⟨j, q, hk, hq, he⟩ := dictGet_luaClassesFrom_some keyOf classes 0 w (keyOf ty) hr
+    exact ⟨q, by simpa [hk] using hq, he⟩
+
+/-- with the full name as key the class found IS the argument's class -/
+theorem class_arg_found_is_the_type (classes : List QName) (ty : QName) (k : Nat)
+    (h : classArgPop classes ty = .own k) : classes[k]? = some ty := by
+  obtain ⟨q, hq, he⟩ := class_arg_found_has_key id classes ty k h
+  simpa [← (show q = ty from he)] using hq
+
+/-- keyed by the unqualified name the statement is false: `a::N` is read as an object of `b::N`
+    (negation witness for a keying other than the full name) -/
+theorem unqualified_key_confuses :
+    ∃ (classes : List QName) (i : Nat) (q : QName), classes.Nodup ∧ classes[i]? = some q ∧
+      classArgPopBy unqualKey classes q ≠ .own i :=
+  ⟨[[1, 5], [2, 5]], 0, [1, 5], by decide, by decide, by decide⟩
+
+/-- an object made by the constructor of the `i`-th class is accepted by every argument declared with that
+    class's qualified name: one class, one metatable name, at the constructor and at the argument -/
+theorem constructed_accepted_as_named_argument (names : List QName) (classes : List ClassD) (i : Nat)
+    (q : QName) (c : ClassD) (hn : names.Nodup) (hq : names[i]? = some q) (hc : classes[i]? = some c)
+    (d : Nat) :
+    ∃ m, argDemandedByName names classes q = some m ∧
+      demands m (attachedValue (registry classes) (classSites c).attached d) = true := by
+  obtain ⟨m, hm, hd⟩ := constructed_accepted_as_argument classes i c hc d
+  exact ⟨m, by simp [argDemandedByName, class_arg_own_class names i q hn hq, hm], hd⟩
+
+/-- two classes `Node` in namespaces 1 and 2, a third class: every name is resolved to its own class;
+    a class of another library is foreign -/
+example :
+    let names : List QName := [[1, 5], [2, 5], [6]]
+    names.Nodup ∧ classArgPop names [1, 5] = .own 0 ∧ classArgPop names [2, 5] = .own 1 ∧
+      classArgPop names [6] = .own 2 ∧ classArgPop names [3, 5] = .foreign 5 ∧
+      classArgPopBy unqualKey names [1, 5] = .own 1 := by decide
+
 end Shroud.LuaDispatch
